@@ -439,6 +439,7 @@ class HistoryHarness(ex.Harness):
             book = self.bookkeeping(obs, R, O, state)
             emitter_alive = [e.is_alive() for e in obs.emitters]
             n_events = len(events)
+            n_events2 = len(events2)
             probes = {}
             if cfg.probes and not model.root_gone:
                 dirs = [""] + sorted(p for p, k in final.items() if k == "d")
@@ -451,7 +452,7 @@ class HistoryHarness(ex.Harness):
             obs.stop()
             obs.join()
             leftover = shim.cleanup()
-            return dict(events=events[:n_events], events2=list(events2), final=final, model=model.key(),
+            return dict(events=events[:n_events], events2=events2[:n_events2], final=final, model=model.key(),
                         probes=probes, probe_events=probe_events, book=book, emitter_alive=emitter_alive,
                         shim_violations=list(shim.violations), leftover_fds=leftover,
                         root_gone=model.root_gone, calls=list(shim.calls))
@@ -627,6 +628,28 @@ def bursts(model, max_len, respect_pacing, outside_ops=True, root_delete=False, 
 _JOB = {}
 
 
+def fs_workers(ctx):
+    """Executions mostly sleep in the kernel (closing an inotify instance waits for an SRCU grace period), so the
+    pool is oversubscribed - but every execution holds up to two inotify instances and the per-user limit
+    (fs.inotify.max_user_instances, often 128) must never be reached: that would be an environment fault."""
+    if "WDMC_WORKERS" in os.environ:
+        return ctx.workers
+    limit = 128
+    try:
+        with open("/proc/sys/fs/inotify/max_user_instances") as f:
+            limit = int(f.read())
+        if limit < 1024:
+            try:
+                with open("/proc/sys/fs/inotify/max_user_instances", "w") as f:
+                    f.write("1024")
+                limit = 1024
+            except OSError:
+                pass
+    except OSError:
+        pass
+    return max(4, min(4 * (os.cpu_count() or 4), limit // 4))
+
+
 def _run_job(job):
     tree0, hist, cfg_i = job
     cfg = _JOB["cfgs"][cfg_i]
@@ -665,7 +688,7 @@ def graph_search(ctx, cfgs, trees, checks, *, burst_len, depth, respect_pacing, 
     outcomes = set()
     samples = []
     capped = False
-    with mp.Pool(max(ctx.workers, 4 * (os.cpu_count() or 4)) if "WDMC_WORKERS" not in os.environ else ctx.workers, initializer=_init_pool, initargs=(mp.Value("i", 0),)) as pool:
+    with mp.Pool(fs_workers(ctx), initializer=_init_pool, initargs=(mp.Value("i", 0),)) as pool:
         for ci, cfg in enumerate(cfgs):
             seen = set()
             frontier = []
@@ -914,8 +937,7 @@ def deviation_search(ctx, checks, *, tier, respect_pacing, root_delete=False, ma
             jobs.append((H(t, b, cfg), 1 if q else 2))
     if max_jobs:
         jobs = jobs[:max_jobs]
-    ctx.explore_many(jobs, cap=150_000 if q else 5_000_000, selftest=False,
-                     workers=max(ctx.workers, 4 * (os.cpu_count() or 4)))
+    ctx.explore_many(jobs, cap=150_000 if q else 5_000_000, selftest=False, workers=fs_workers(ctx))
 
 
 def check_alive_and_reported(h, res):
@@ -1149,4 +1171,41 @@ def check_contract(h, res):
                             msg=f"operation {op} (issued alone, drained) produced {sorted(extra, key=repr)} outside its contract; "
                                 f"got {sorted(got, key=repr)}; history={h.name}",
                             fp=f"contract-extra {op[0]}: {xx[0]}{' synthetic' if xx[3] else ''}"))
+    return out
+
+
+def check_filter(h, res):
+    """C11: the filtered watch delivers exactly the unfiltered stream projected onto the filter's classes."""
+    out = []
+    v = res.value
+    if v is None or res.errors or not h.cfg.second_filter:
+        return out
+    evm = wd.mod("watchdog.events")
+    fcls = tuple(getattr(evm, n) for n in h.cfg.second_filter)
+
+    def sig(e):
+        return (e[1], e[2], e[3], e[5])
+
+    def collapse(seq):
+        o = []
+        for x in seq:
+            if not o or o[-1] != x:
+                o.append(x)
+        return o
+
+    want = collapse([sig(e) for e in v["events"] if issubclass(getattr(evm, e[1]), fcls)])
+    got = collapse([sig(e) for e in v["events2"]])
+    if want != got:
+        missing = [x for x in want if x not in got]
+        extra = [x for x in got if x not in want]
+        if missing:
+            what = f"missing {missing[0][0]}"
+        elif extra:
+            what = f"extra {extra[0][0]}"
+        else:
+            what = "order"
+        out.append(dict(kind="filter-mismatch",
+                        msg=f"filter {h.cfg.second_filter}: filtered watch delivered {got}, projection of the unfiltered "
+                            f"stream is {want}; history={h.name}",
+                        fp=f"filter-mismatch filter={'+'.join(h.cfg.second_filter)}: {what}"))
     return out
